@@ -197,6 +197,9 @@ def _classify_selector(key: str, facts, sel) -> str:
         parts = [text(x) if x is not None else None for x in (sel.lower, sel.upper, sel.step)]
     elif isinstance(sel, ast.Call) and isinstance(sel.func, ast.Name) and sel.func.id == 'slice' and len(sel.args) == 3 and not sel.keywords:
         parts = [text(x) for x in sel.args]
+    if is_call(sel, 'slice') and len(sel.args) == 1 and isinstance(sel.args[0], ast.Starred) and text(sel.args[0].value) == res and not sel.keywords:
+        # slice(*(start, stop, step)): the three resolved parts, in order
+        return 'slice' if is_sl else 'slice selector used without `isinstance(index, slice)`'
     if parts is not None:
         if parts == [f'{res}[0]', f'{res}[1]', f'{res}[2]']:
             return 'slice' if is_sl else 'slice selector used without `isinstance(index, slice)`'
@@ -205,6 +208,36 @@ def _classify_selector(key: str, facts, sel) -> str:
         return 'loc' if not_sl else 'label lookup used although the index may be a slice'
     if text(sel) == res:
         return 'the whole (start, stop, step) tuple is used as the subscript'
+    if is_call(sel, '__reraise__') or is_call(sel, '__raise__'):
+        return 'raises'
+    raised = (f"__raised__(self._locate_period_in_span({idx}), 'KeyError')", True) in facts
+    if isinstance(sel, ast.ListComp) and len(sel.generators) == 1 and not sel.generators[0].ifs and text(sel.generators[0].iter) == idx \
+            and text(sel.elt) == f'self._locate_period_in_span({text(sel.generators[0].target)})' and raised:
+        # the index is not itself a label (the look-up raised KeyError) and is then read as a collection of labels: only for
+        # types that can never be a label (unhashable ones) - for a hashable one, an absent label must stay a KeyError
+        import collections.abc as cabc
+        types = {'Sequence': cabc.Sequence, 'collections.abc.Sequence': cabc.Sequence, 'Iterable': cabc.Iterable, 'collections.abc.Iterable': cabc.Iterable,
+                 'Hashable': cabc.Hashable, 'list': list, 'tuple': tuple, 'str': str, 'set': set, 'frozenset': frozenset, 'bytes': bytes, 'Collection': cabc.Collection}
+        reps = {'tuple': ('a', 'b'), 'str': 'ab', 'frozenset': frozenset(('a', 'b')), 'bytes': b'ab', 'list': ['a', 'b']}
+        admitted = set(reps)
+        for (a_, tr_) in facts:
+            if a_.startswith('__raised__(') or a_ == f'isinstance({idx}, slice)':
+                continue
+            node = ast.parse(a_, mode='eval').body
+            if is_call(node, 'isinstance') and len(node.args) == 2 and text(node.args[0]) == idx:
+                ts = node.args[1].elts if isinstance(node.args[1], ast.Tuple) else [node.args[1]]
+                if all(text(t_) in types for t_ in ts):
+                    tt = tuple(types[text(t_)] for t_ in ts)
+                    admitted = {k for k in admitted if isinstance(reps[k], tt) == tr_}
+                    continue
+            if idx not in a_:
+                continue
+            raise Unknown(f'fallback to a collection of labels under `{a_}`: which index types it admits is not decided')
+        hashable = sorted(k for k in admitted if k != 'list')
+        if hashable:
+            return (f'when `{idx}` is not a label, it is read as a collection of labels for the hashable type(s) {hashable}: an absent label of such a type (a tuple label of a '
+                    f'MultiIndex span, a string) no longer raises KeyError - its elements that are labels are addressed instead, i.e. other periods')
+        return 'labels'
     if any(isinstance(x, ast.Call) and isinstance(x.func, ast.Attribute) and isinstance(x.func.value, ast.Name) and x.func.value.id == 'self'
            and x.func.attr not in ('_locate_period_in_span', '_resolve_period_slice', '__getattr__', '__getitem__') for x in ast.walk(sel)):
         raise Unknown(f'subscript `{text(sel)[:60]}` goes through a helper that was not read (several exits, try/except): which positions it selects is not decided')
@@ -219,7 +252,12 @@ def r2_get_set_symmetry(R) -> None:
     val = s.fi.params()[2]
     # small forwarding methods are read through; the two that the rule is stated in terms of stay calls
     anchors = ('self._locate_period_in_span', 'self._resolve_period_slice', 'self.__getattr__', 'self.__getitem__', 'self.__setitem__')
-    seg, ses = g.symexec(methods=True, exclude=anchors), s.symexec(methods=True, exclude=anchors)
+    from fsa import summ as _summ
+    _summ.TRY_FALLBACK[0] = True
+    try:
+        seg, ses = g.symexec(methods=True, exclude=anchors), s.symexec(methods=True, exclude=anchors)
+    finally:
+        _summ.TRY_FALLBACK[0] = False
     # get: every `return <series>[...]`
     seen = {'slice': False, 'loc': False}
     series_g = {f'self.__getattr__({keyg}[0])', f"self.__dict__['_' + {keyg}[0]]"}
@@ -233,6 +271,8 @@ def r2_get_set_symmetry(R) -> None:
             kind = _classify_selector(keyg, facts, sel)
             if kind in seen:
                 seen[kind] = True
+            elif kind in ('raises', 'labels'):
+                pass
             else:
                 R.violation(g.q, f'get-subscript:{text(sel)[:50]}', f'`return {text(v)[:60]}`: {kind}', where=g.where(r))
     R.check(seen['slice'], g.q, 'get-slice', 'a label slice returns series[start:stop:step]', 'no `return series[start:stop:step]` for label slices', where=g.fi.where)
@@ -254,8 +294,10 @@ def r2_get_set_symmetry(R) -> None:
                 kind = _classify_selector(keys_, facts, sel)
                 if kind in seen:
                     seen[kind] = True
+                elif kind in ('raises', 'labels'):
+                    pass
                 else:
-                    R.violation(s.q, f'set-subscript:{text(sel)[:50]}', f'`{text(a)[:70]}`: {kind} (e.g. a slice without the step writes every period in between)',
+                    R.violation(s.q, f'set-subscript:{text(sel)[:50]}', f'`{text(a)[:70]}`: {kind}' + (' (e.g. a slice without the step writes every period in between)' if kind.startswith('slice') else ''),
                                 where=s.where(n))
     R.check(seen['slice'], s.q, 'set-slice', 'a label slice writes series[start:stop:step]', 'no store through series[start:stop:step] for label slices', where=s.fi.where)
     R.check(seen['loc'], s.q, 'set-label', 'a single label writes series[position]', 'no store through series[position] for single labels', where=s.fi.where)
